@@ -8,6 +8,9 @@ Three kinds of cases:
         int16-packed storage chosen per file (packed -> float, float -> packed, packed -> packed with other factors); observed: `forcing.velocity(X, Y, Z)`,
         `forcing.variables` and `forcing.K/A` after `update()`.  The Coq model gets the RAW arrays written
         into the file (and the level index/weight the harness computed from the particle's own water column).
+  scale a fixed family at realistic scale (c02_scale.py; oracle only, always first): sample3D / sample3DUV, Grid+Forcing
+        (+ Tracker) and complete ladim.main runs with 1000 ... 130000 particles in random order, a large grid with
+        window offsets in the hundreds, sixteen forcing files, a continuous release growing through several thousands.
 Everything of a case is regenerated from its description (a seed), so a replay file is small.
 The oracle is the property text in GLOBAL grid coordinates (no slicing, no offsets): bilinear between the four
 surrounding u- (v-) points, linear in depth between levels K-1 and K, zero through land faces, scalar = own cell;
@@ -31,6 +34,8 @@ RULE = ("sample3D / sample3DUV on generated arrays (positions on cell centres, e
         "bathymetry, islands and one-cell channels, sub-rectangles with i0 != j0 incl. negative limits and the full "
         "grid, f8/f4/int16-packed storage chosen independently per file (packed then float, float then packed, packed then packed "
         "with other scale factors), frames of the second file). "
+        "Scale (oracle only, every particle of the case): the same entry points and complete ladim.main runs with 1000 to "
+        "130000 particles in random order, a 236x187x21 grid with window offsets > 100, 16 forcing files. "
         "Non-trivial = distinct (kind, seed) with at least one particle off the nodes in a non-constant field.")
 TRUSTED = ["Coq 8.16.1 kernel + vm_compute", "hand-written model coq/Model/Interp.v tied by this correspondence",
            "netCDF4/HDF5 round trip of the generated arrays", "numba compilation of trilinear/z2s_kernel as run",
@@ -54,6 +59,10 @@ def gen_cases(ctx):
     rng = ctx.rng
     nk, nuv, nf = (50, 40, 48) if ctx.quick else (500, 400, 420)
     out = []
+    # realistic scale first (a fixed family, nothing drawn from rng: the random stream below is unchanged)
+    import c02_scale
+
+    out.extend(c02_scale.gen_scale_cases())
     for n in range(nk):
         out.append({"k": "s3d", "seed": rng.randrange(10**9), "meth": rng.choice([0, 0, 0, 1]), "exact": n % 2 == 0,
                     "N": rng.randint(2, 4), "jn": rng.randint(2, 6), "im": rng.randint(2, 7), "P": 12})
@@ -670,6 +679,10 @@ def eval_landrow(desc, ctx):
 
 
 def eval_case(desc, ctx):
+    if desc["k"] == "scale":
+        import c02_scale
+
+        return c02_scale.eval_scale_case(desc, ctx)
     if desc["k"] == "landrow":
         return eval_landrow(desc, ctx)
     if desc["k"] == "fbits":
